@@ -163,7 +163,7 @@ def automaton(tr):
     # ---- R4e: every run that ended on its own before the last poll was notified ----
     last_fetch = tr.last_fetch_seq
     if tr.exception is not None and len(tr.fetches) >= 2:
-        last_fetch = tr.fetches[-2]["s"]
+        last_fetch = tr.fetches[-2]["sc"]
     elif tr.exception is not None:
         last_fetch = -1
     ends = {}
